@@ -98,6 +98,20 @@ Theorem C15_like_imp_refuted :
 Proof. exact like_imp_refuted. Qed.
 Print Assumptions C15_like_imp_refuted.
 
+(* a second shape on which the copy differs from the explicit card: BUT MAT=0
+   makes the copy void but the inherited density stays on it (the explicit void
+   card has none); C15_like_equals_expanded holds there too — it speaks of the
+   dictionary, and no explicit card carries "material 0 with a density" *)
+Theorem C15_like_mat_void_refuted :
+  exists (e : env (T:=R)) (tbl : table) (c_like c_expl : cell (T:=R)),
+    lookup 1%Z tbl = Some (" 1 -1.0", " -1 ", "imp:n=1") /\
+    parse_one_cell RS 2 e tbl 1 None ("", " like 1 but", " mat=0") = Ok c_like /\
+    parse_one_cell RS 2 e tbl 1 None (" 0", " -1 ", "imp:n=1") = Ok c_expl /\
+    c_mat c_like = "0" /\ c_mat c_expl = "0" /\
+    c_rho c_like = Some "-1.0" /\ c_rho c_expl = None.
+Proof. exact like_mat_void_refuted. Qed.
+Print Assumptions C15_like_mat_void_refuted.
+
 (* non-vacuity: LIKE 2 BUT RHO *TRCL where 2 is itself LIKE 1 BUT MAT IMP *)
 Example C15_example :
   let e := xenv 0%R 1%R in
